@@ -444,6 +444,9 @@ pub struct Cfg {
     pub donors: Vec<u8>,
     /// leave `total_sent` out of the state key (see `Key::hash`)
     pub mask_total_sent: bool,
+    /// a current-layout contract whose cw2 record names an EARLIER release that already had this layout
+    /// (0.13.1 and later): migrating it is a same-layout migrate and must leave the books alone
+    pub restamp: Option<&'static str>,
 }
 
 impl Cfg {
@@ -491,6 +494,7 @@ impl Cfg {
             wasm_admin: None,
             donors: vec![],
             mask_total_sent: true,
+            restamp: None,
         }
     }
     pub fn chans(&self) -> std::ops::Range<u8> {
@@ -1400,6 +1404,12 @@ impl Model for Ics20Model {
                     r.allow.insert(*t, *l);
                 }
                 migrated = true;
+                if let Some(ver) = cfg.restamp {
+                    let inst = w.contracts.get_mut(&ics).unwrap();
+                    if let Err(e) = cw2::set_contract_version(&mut inst.store, "crates.io:cw20-ics20", ver) {
+                        return dead(w, v, e.to_string());
+                    }
+                }
             }
             Some(old) => {
                 if let Err(e) = self.build_old(&mut w, old) {
